@@ -84,7 +84,18 @@ func extra(slim bool) (*schema.Program, map[string][]fnInfo) {
 			schema.Func{Name: "Fone", OneWay: true, Args: []schema.Field{{ID: 1, Name: "A1", Type: schema.Prim(schema.String), Req: schema.Optional}}},
 			schema.Func{Name: "Fexc", Throws: []schema.Field{x(), {ID: 2, Name: "E2", Type: schema.Named("Y"), Req: schema.Optional}}},
 		)
-		info[cur.Path] = append(info[cur.Path], fnInfo{"Sv", "Fvoid", "void", -1}, fnInfo{"Sv", "Fone", "oneway", -1}, fnInfo{"Sv", "Fexc", "void+2 exceptions", -1})
+		// arguments that carry default values (optional and required; primitive, enum, typedef, string, container, struct)
+		svc.Funcs = append(svc.Funcs, schema.Func{Name: "Fdef", Ret: schema.Prim(schema.I32), Args: []schema.Field{
+			{ID: 1, Name: "A1", Type: schema.Prim(schema.I32), Req: schema.Optional, Default: schema.Int(5)},
+			{ID: 2, Name: "A2", Type: schema.Named("base.E"), Req: schema.Optional, Default: schema.Int(5)},
+			{ID: 3, Name: "A3", Type: schema.Prim(schema.String), Req: schema.Optional, Default: schema.Str("x")},
+			{ID: 4, Name: "A4", Type: schema.Named("base.Ti32"), Req: schema.Optional, Default: schema.Int(3)},
+			{ID: 5, Name: "A5", Type: schema.ListOf(schema.Prim(schema.I32)), Req: schema.Optional, Default: schema.Seq(*schema.Int(1))},
+			{ID: 6, Name: "A6", Type: schema.Prim(schema.I64), Req: schema.Required, Default: schema.Int(9)},
+			{ID: 7, Name: "A7", Type: schema.Prim(schema.Double), Req: schema.Optional, Default: schema.Dbl(1.5)},
+			{ID: 8, Name: "A8", Type: schema.Prim(schema.Bool), Req: schema.Optional, Default: schema.Int(1)},
+		}})
+		info[cur.Path] = append(info[cur.Path], fnInfo{"Sv", "Fvoid", "void", -1}, fnInfo{"Sv", "Fone", "oneway", -1}, fnInfo{"Sv", "Fexc", "void+2 exceptions", -1}, fnInfo{"Sv", "Fdef", "arguments with defaults", -1})
 		// a second service in the same file inheriting from the first
 		child := &schema.Def{Kind: "service", Name: "Child", Parent: "Sv", Funcs: []schema.Func{{Name: "Fc", Ret: schema.Named("X"), Args: []schema.Field{{ID: 1, Name: "A1", Type: schema.Named("Y"), Req: schema.Optional}}}}}
 		cur.Defs = append(cur.Defs, child)
